@@ -14,8 +14,8 @@ use cooklang_bindings::model::{
     Amount, Block, Component, Cookware, CooklangRecipe, GroupedQuantity, GroupedQuantityKey, Ingredient, IngredientList, Item,
     QuantityType, Timer, Value,
 };
-use cooklang_bindings::{combine_ingredients, combine_ingredients_selected, deref_component, deref_cookware, deref_ingredient, deref_timer};
-use std::collections::{BTreeMap, BTreeSet};
+use cooklang_bindings::{combine_ingredients, combine_ingredients_selected, deref_component, deref_cookware, deref_ingredient, deref_timer, parse_aisle_config, parse_metadata};
+use std::collections::{BTreeMap, BTreeSet, HashMap};
 use uniffi::FfiConverter;
 
 // ---------------------------------------------------------------- view values through the uniffi wire format
@@ -242,6 +242,116 @@ fn mirror_oracle(core: &ScaledRecipe, view: &CooklangRecipe) -> Result<(), (Stri
     Ok(())
 }
 
+
+// ---------------------------------------------------------------- the rest of the exported surface: metadata, parse_recipe as a whole, aisle wrapper
+
+fn r_str_map(m: &HashMap<String, String>) -> String {
+    let b: BTreeMap<&String, &String> = m.iter().collect();
+    b.iter().map(|(k, v)| format!("{}={}", enc_text(k), enc_text(v))).collect::<Vec<_>>().join(" ")
+}
+fn tok_opt(o: Option<&str>) -> String { match o { None => "n".into(), Some(t) => format!("s{}", enc_text(t)) } }
+
+/// the view's `metadata` field and `parse_metadata`: both are the string→string entries of the core recipe's map
+fn metadata_checks(ctx: &mut Ctx, core: &ScaledRecipe, view: &CooklangRecipe, input: &str, factor: f64) {
+    let desc = format!("parse_recipe({input:?}, {factor:?}).metadata");
+    let entries: Vec<(Option<&str>, Option<&str>)> = core.metadata.map.iter().map(|(k, v)| (k.as_str(), v.as_str())).collect();
+    let req = format!("ffi_meta{}", entries.iter().map(|(k, v)| format!(" {} {}", tok_opt(*k), tok_opt(*v))).collect::<String>());
+    ctx.count(&format!("metadata:entries:{}", entries.len().min(5)));
+    for (k, v) in &entries { ctx.count(match (k, v) { (Some(_), Some(_)) => "metadata:entry:string-string", (Some(_), None) => "metadata:entry:value-not-a-string(dropped)", (None, _) => "metadata:entry:key-not-a-string(dropped)" }); }
+    ctx.case(req.clone(), r_str_map(&view.metadata), !entries.is_empty(), desc.clone());
+    // oracle: exactly the string→string entries (silent when two different YAML keys read as the same string)
+    let skeys: Vec<&str> = entries.iter().filter_map(|(k, v)| if v.is_some() { *k } else { None }).collect();
+    let distinct = skeys.iter().collect::<BTreeSet<_>>().len() == skeys.len();
+    if distinct {
+        let want: HashMap<String, String> = entries.iter().filter_map(|(k, v)| Some((k.as_ref()?.to_string(), v.as_ref()?.to_string()))).collect();
+        if want != view.metadata { ctx.oracle_fail(desc.clone(), format!("view metadata {:?} is not the string entries {:?} of the core map", view.metadata, want), "c19:metadata:mirror".into()); }
+    } else { ctx.count("metadata:two-keys-read-as-the-same-string"); }
+    match guarded(|| parse_metadata(input.to_string(), factor)) {
+        Ok(m) => {
+            ctx.case(req, r_str_map(&m), !entries.is_empty(), format!("parse_metadata({input:?}, {factor:?})"));
+            if m != view.metadata { ctx.oracle_fail(format!("parse_metadata({input:?}, {factor:?})"), format!("parse_metadata gives {m:?}, the view of parse_recipe has {:?}", view.metadata), "c19:metadata:parse_metadata".into()); }
+        }
+        Err(p) => ctx.oracle_fail(format!("parse_metadata({input:?}, {factor:?})"), format!("parse_recipe accepts the input but parse_metadata panics: {p}"), panic_signature(&p)),
+    }
+}
+
+fn yaml_scalar(rng: &mut Rng) -> String {
+    match rng.below(14) {
+        0 => "2".into(), 1 => "1.5".into(), 2 => "true".into(), 3 => "null".into(), 4 => "~".into(), 5 => "\"quoted é\"".into(), 6 => "'single'".into(),
+        7 => "!tag tagged".into(), 8 => "\"\"".into(), 9 => "2 people".into(), 10 => "1h 30min".into(), 11 => "https://x.example/r".into(),
+        _ => rng.pick(&["Soup", "é", "a, b", "Jane <j@x.example>", "x y z", "-1", "0x10"]).to_string(),
+    }
+}
+/// a YAML front matter: string and non-string keys and values, tagged scalars, sequences, nested maps, keys that read as the same string
+fn gen_front_matter(rng: &mut Rng) -> String {
+    let keys = ["title", "servings", "tags", "author", "source", "time", "prep time", "cook time", "description", "é", "x", "custom key", "1", "true", "null", "!k x", "\"x\"", "[a]", "2.5", "locale"];
+    let mut s = String::from("---\n");
+    let n = rng.below(7);
+    for _ in 0..n {
+        let k = *rng.pick(&keys);
+        match rng.below(8) {
+            0 => s.push_str(&format!("{k}: [{}, {}]\n", yaml_scalar(rng), yaml_scalar(rng))),
+            1 => s.push_str(&format!("{k}:\n  - a\n  - 2\n")),
+            2 => s.push_str(&format!("{k}:\n  name: n\n  url: {}\n", yaml_scalar(rng))),
+            3 => s.push_str(&format!("{k}:\n")),
+            _ => s.push_str(&format!("{k}: {}\n", yaml_scalar(rng))),
+        }
+    }
+    if rng.chance(1, 25) { s.push_str("not yaml: [\n"); }
+    s.push_str("---\n");
+    s
+}
+
+/// `parse_aisle_config` + `AisleConf::category_for`: against the model, against the core configuration's own lookup, and
+/// history independence (the answer to a query does not depend on the queries made before it on the same object)
+fn one_aisle(ctx: &mut Ctx, rng: &mut Rng, input: &str) {
+    let desc = format!("parse_aisle_config({input:?})");
+    let core = match guarded(|| cooklang::aisle::parse(input)) { Ok(c) => c, Err(_) => { ctx.count("aisle:core-parser-panics(C11)"); return; } };
+    let w = guarded(|| parse_aisle_config(input.to_string()));
+    let core = match core {
+        Err(_) => {
+            ctx.count("aisle:rejected-by-core-parser(wrapper panics: unwrap)");
+            if w.is_ok() { ctx.oracle_fail(desc.clone(), "the core parser rejects the file but the wrapper returns a configuration".into(), "c19:aisle:accepts-rejected".into()); }
+            ctx.case(format!("ffi_aisle {}", enc_text(input)), if w.is_ok() { "ok?".into() } else { "panic".into() }, true, desc);
+            return;
+        }
+        Ok(c) => c,
+    };
+    let w = match w { Ok(w) => w, Err(p) => { ctx.oracle_fail(desc, format!("the core parser accepts the file but parse_aisle_config panics: {p}"), panic_signature(&p)); return; } };
+    ctx.count(&format!("aisle:accepted:cats={}", core.categories.len().min(4)));
+    // mirror of the categories
+    let same = core.categories.len() == w.categories.len() && core.categories.iter().zip(&w.categories).all(|(c, f)| c.name == f.name && c.ingredients.len() == f.ingredients.len() &&
+        c.ingredients.iter().zip(&f.ingredients).all(|(i, fi)| i.names.first().copied() == Some(fi.name.as_str()) && i.names[1..].iter().copied().eq(fi.aliases.iter().map(|a| a.as_str()))));
+    if !same { ctx.oracle_fail(desc.clone(), format!("categories of the wrapper {:?} do not mirror the core configuration {:?}", w.categories, core.categories), "c19:aisle:mirror".into()); }
+    // queries: every name (some twice), absent probes, in a random order
+    let names: Vec<String> = core.categories.iter().flat_map(|c| &c.ingredients).flat_map(|i| i.names.iter().map(|n| n.to_string())).collect();
+    if names.iter().collect::<BTreeSet<_>>().len() != w.cache.len() { ctx.oracle_fail(desc.clone(), format!("{} cache entries for {} names", w.cache.len(), names.len()), "c19:aisle:cache-size".into()); }
+    let mut qs: Vec<String> = names.iter().take(6).cloned().collect();
+    for p in ["a", "", "zz", "[a]", "milk", "A"] { if rng.chance(1, 2) { qs.push(p.to_string()); } }
+    for c in core.categories.iter().take(2) { if rng.chance(1, 3) { qs.push(c.name.to_string()); } }
+    let extra = qs.len().min(3);
+    for _ in 0..extra { let q = qs[rng.below(qs.len())].clone(); qs.push(q); }
+    rng.shuffle(&mut qs);
+    let info = core.ingredients_info();
+    let answers: Vec<Option<String>> = qs.iter().map(|q| w.category_for(q.clone())).collect();
+    for (q, a) in qs.iter().zip(&answers) {
+        ctx.count(if a.is_some() { "aisle:query:found" } else { "aisle:query:absent" });
+        let want = info.get(q.as_str()).map(|i| i.category.to_string());
+        if *a != want { ctx.oracle_fail(format!("{desc}.category_for({q:?})"), format!("wrapper answers {a:?}, the core configuration's ingredients_info gives {want:?}"), "c19:aisle:category_for".into()); }
+    }
+    // history independence: a fresh object asked one question, and the same object asked again in the reverse order
+    for (k, q) in qs.iter().enumerate().rev() {
+        let again = w.category_for(q.clone());
+        let fresh = parse_aisle_config(input.to_string()).category_for(q.clone());
+        if again != answers[k] || fresh != answers[k] {
+            ctx.oracle_fail(format!("{desc}.category_for({q:?}) after {:?}", &qs[..k]), format!("answer {:?} in the sequence, {again:?} when asked again, {fresh:?} on a fresh object", answers[k]), "c19:aisle:history".into());
+        }
+    }
+    let cats = w.categories.iter().flat_map(|c| { let mut v = vec!["C".to_string(), enc_text(&c.name)]; for i in &c.ingredients { v.push(format!("I{}", 1 + i.aliases.len())); v.push(enc_text(&i.name)); v.extend(i.aliases.iter().map(|a| enc_text(a))); } v }).collect::<Vec<_>>().join(" ");
+    let reply = format!("cats {} # cache {} # {}", cats, r_str_map(&w.cache), answers.iter().map(r_opt_text).collect::<Vec<_>>().join(" "));
+    ctx.case(format!("ffi_aisle {}{}", enc_text(input), qs.iter().map(|q| format!(" {}", enc_text(q))).collect::<String>()), reply, !names.is_empty(), format!("{desc}, category_for of {qs:?}"));
+}
+
 fn one_recipe(ctx: &mut Ctx, parser: &CooklangParser, input: &str, factor: f64) {
     let desc = format!("parse_recipe({input:?}, {factor:?})");
     let parsed = match guarded(|| parser.parse(input).into_result()) {
@@ -249,6 +359,13 @@ fn one_recipe(ctx: &mut Ctx, parser: &CooklangParser, input: &str, factor: f64) 
         Ok(Err(rep)) => {
             ctx.count("recipe:rejected-by-canonical-parser");
             if let Some(e) = rep.errors().next() { let m: String = e.to_string().chars().take(40).collect(); ctx.count(&format!("recipe:rejected:{m}")); }
+            // the wrapper unwraps the pass result: a rejected input is a panic (the property is silent; C03 is not).  Model: the same, except that
+            // the validity of a front matter's YAML is outside the model
+            if !input.trim_start().starts_with("---") {
+                let r = guarded(|| cooklang_bindings::parse_recipe(input.to_string(), factor));
+                ctx.count(if r.is_err() { "parse_recipe:rejected-input-panics(unwrap)" } else { "parse_recipe:rejected-input-returns" });
+                ctx.case(format!("ffi_parse {} {}", bits(factor), enc_text(input)), match &r { Ok(v) => r_view(v), Err(_) => "panic:unwrap".into() }, true, desc);
+            }
             return;
         }
         Err(_) => { ctx.count("recipe:parser-panics(C03)"); return; }
@@ -263,12 +380,18 @@ fn one_recipe(ctx: &mut Ctx, parser: &CooklangParser, input: &str, factor: f64) 
     let n_items: usize = core.sections.iter().flat_map(|s| &s.content).map(|c| if let Content::Step(s) = c { s.items.len() } else { 0 }).sum();
     ctx.count(&format!("recipe:items:{}", match n_items { 0 => "0", 1..=3 => "1-3", 4..=10 => "4-10", _ => ">10" }));
     if core.sections.iter().flat_map(|s| &s.content).any(|c| matches!(c, Content::Text(_))) { ctx.count("recipe:has-text-block"); }
-    for i in &core.ingredients { match i.quantity.as_ref().map(|q| q.value()) { None => ctx.count("ingredient:no-quantity"), Some(CoreValue::Number(_)) => ctx.count("ingredient:number"), Some(CoreValue::Range { .. }) => ctx.count("ingredient:range"), Some(CoreValue::Text(_)) => ctx.count("ingredient:text") }
+    for i in &core.ingredients { match i.quantity.as_ref().map(|q| q.value()) { None => ctx.count("ingredient:no-quantity"), Some(CoreValue::Number(n)) => { ctx.count("ingredient:number"); if matches!(n, cooklang::quantity::Number::Fraction { .. }) { ctx.count("ingredient:number:fraction"); } } Some(CoreValue::Range { .. }) => ctx.count("ingredient:range"), Some(CoreValue::Text(_)) => ctx.count("ingredient:text") }
         if i.note.is_some() { ctx.count("ingredient:note"); } if i.quantity.as_ref().is_some_and(|q| q.unit().is_some()) { ctx.count("ingredient:unit"); } }
     ctx.count_n("cookware", core.cookware.len() as u64);
     for t in &core.timers { ctx.count(if t.name.is_some() { "timer:named" } else { "timer:unnamed" }); }
     let nontrivial = !core.ingredients.is_empty() || !core.cookware.is_empty() || !core.timers.is_empty();
     ctx.case(format!("ffi {}", recipe_sexp::scaled_recipe(&core)), r_view(&view), nontrivial, desc.clone());
+    // parse_recipe as a whole (parser model + into_result + scale + view) on the input text
+    if ctx.thorough || crate::util::hash64(input) % 3 == 0 || input.len() < 40 {
+        ctx.count("parse_recipe:whole-wrapper-compared");
+        ctx.case(format!("ffi_parse {} {}", bits(factor), enc_text(input)), r_view(&view), nontrivial, desc.clone());
+    }
+    metadata_checks(ctx, &core, &view, input, factor);
     if let Err((m, sig)) = mirror_oracle(&core, &view) { ctx.oracle_fail(desc, m, sig.to_string()); }
 }
 
@@ -321,6 +444,8 @@ fn step(rng: &mut Rng) -> String {
 fn gen_recipe(rng: &mut Rng) -> String {
     let mut s = String::new();
     if rng.chance(1, 6) { s.push_str("---\ntitle: Test é\nservings: 2\ntags: [a, b]\n---\n"); }
+    else if rng.chance(1, 4) { s.push_str(&gen_front_matter(rng)); }
+    else if rng.chance(1, 12) { for _ in 0..1 + rng.below(3) { s.push_str(&format!(">> {}: {}\n", rng.pick(&["title", "servings", "x", "é", "time"]), rng.pick(&["Soup", "2", "é é", "1h", ""]))); } }
     let nsec = 1 + rng.below(3);
     for si in 0..nsec {
         if si > 0 || rng.chance(1, 3) {
@@ -475,7 +600,10 @@ pub fn run(ctx: &mut Ctx) {
     ctx.rule = "ffi: structured canonical-syntax recipes (sections, multi-line steps, text blocks, ingredients/cookware/timers with numeric, fraction, text and missing \
 quantities, units, notes, front matter) plus the shared recipe/soup generators, each at several scaling factors; only inputs the canonical parser accepts are evaluated; \
 combine: ingredient lists with repeated names/units/kinds (Number, Range, Text, Empty, no amount), ALL permutations up to length 5 (samples above), random selections with \
-repetitions, a non-finite/overflow stream and out-of-range selections for correspondence only; merge_lists: consistent and kind-inconsistent maps. \
+repetitions, a non-finite/overflow stream and out-of-range selections for correspondence only; merge_lists: consistent and kind-inconsistent maps; \
+metadata: YAML front matters with string / non-string / tagged keys and values and `>>` lines (view.metadata and parse_metadata vs the core map); ffi_parse: parse_recipe as a whole on the input text \
+(accepted inputs, and rejected ones without front matter); aisle: files of C11's generators (clean, messy, mutants, soups), category_for of every name and absent probes in random orders with repetitions on ONE object, \
+compared with the core configuration's lookup, with a fresh object and with the same object asked again (history independence). \
 non-trivial = the recipe has a component / the list has more than one entry; distinct = distinct request lines".into();
     let parser = CooklangParser::canonical();
     let factors = [1.0, 2.0, 0.5, 3.0, 1.0 / 3.0, 0.0, 1e6];
@@ -494,6 +622,25 @@ non-trivial = the recipe has a component / the list has more than one entry; dis
         let src = if i % 8 == 7 { crate::gen::recipe(&mut rng) } else { gen_recipe(&mut rng) };
         let f = if i % 3 == 0 { *rng.pick(&factors) } else { (rng.unit_f64() * 8.0 * 64.0).round() / 64.0 };
         one_recipe(ctx, &parser, &src, f);
+    }
+
+    // front matters: keys/values that are not strings, tagged scalars, keys that read as the same string
+    for fm in ["---\ntitle: x\nservings: 2\n---\n@a", "---\n!t k: v\nk: w\n---\n", "---\nk: w\n!t k: v\n---\n", "---\n1: one\ntrue: yes\nnull: z\n[a]: l\n---\ntext",
+               "---\na: !t v\nb: [x]\nc: {d: e}\nd:\ne: \"\"\n---\n", "---\n---\n", "---\n\"x\": 1\nx y: z w\n---\n", ">> a: b\n>> a: c\n>> d: e\n@x", "---\nnot yaml: [\n---\n@a"] {
+        for f in [1.0, 2.0] { one_recipe(ctx, &parser, fm, f); }
+    }
+
+    // the aisle wrapper: files of C11's generators
+    let mut rng = Rng::new(ctx.seed ^ 0xC19A);
+    for s in ["", "[a]", "[dairy]\nmilk|whole milk\nbutter\n[b]\negg", "[a]\nx|\ny|", "x", "[a]\nx|x", "[a]\n[a]", "[a|b]", "[é]\n é | e //c\r\n\n[]\n|z", "[a]\n|"] { one_aisle(ctx, &mut rng, s); }
+    for i in 0..(if ctx.thorough { 60_000 } else { 4_000 }) {
+        let s = match i % 6 {
+            0 | 1 => crate::props::c11::gen_file(&mut rng, false),
+            2 | 3 => crate::props::c11::gen_file(&mut rng, true),
+            4 => { let base = crate::props::c11::gen_file(&mut rng, i % 4 == 0); crate::props::c11::mutate(&mut rng, &base) }
+            _ => crate::props::c11::soup(&mut rng),
+        };
+        one_aisle(ctx, &mut rng, &s);
     }
 
     // combining: exhaustive small shapes, then random lists
